@@ -205,3 +205,62 @@ def geoExtend (chromSizes : List Int) (len : Int) (rows : List (Nat × Bool × I
   rows.map (fun r => extendK r.2.1 r.2.2.1 r.2.2.2 len (chromSizes.getD r.1 0))
 
 end C08
+
+namespace C08
+open Base.Rle
+
+/-! ### `global_intersect`: intersect on several chromosomes at once (`np.lexsort` on (chromosome, position)) -/
+
+/-- (chromosome, start, stop) -/
+abbrev CIv := Nat × Nat × Nat
+
+def lexCP (a b : Nat × Nat) : Bool := decide (a.1 < b.1) || (a.1 == b.1 && decide (a.2 ≤ b.2))
+
+/-- `sameChrom = true` is the repaired code (fix 35da59d): a stop is paired with the next start only inside one
+chromosome; `false` is the rule shipped before -/
+def globalIntersectWith (sameChrom : Bool) (A B : List CIv) : List CIv :=
+  let all := A ++ B
+  let st := isort lexCP (all.map (fun r => (r.1, r.2.1)))
+  let sp := isort lexCP (all.map (fun r => (r.1, r.2.2)))
+  ((st.tail.zip sp).filter (fun p => decide (p.2.2 > p.1.2) && (!sameChrom || p.2.1 == p.1.1))).map
+    (fun p => (p.1.1, p.1.2, p.2.2))
+
+def globalIntersect := globalIntersectWith true
+def globalIntersectOld := globalIntersectWith false
+
+def covC (L : List CIv) (c x : Nat) : Nat := L.countP (fun r => r.1 == c && decide (r.2.1 ≤ x) && decide (x < r.2.2))
+
+/-! ### `intervals.pileup`: the pileup as a bedGraph (runs between consecutive endpoints, equal neighbours joined) -/
+
+/-- windows between consecutive sorted endpoints with the running count, empty windows dropped -/
+def windows : List (Nat × Int) → List (Nat × Nat × Int)
+  | x :: y :: rest => if x.1 == y.1 then windows (y :: rest) else (x.1, y.1, x.2) :: windows (y :: rest)
+  | _ => []
+
+/-- `values[1:] == values[:-1]` → the two windows are joined -/
+def joinWindows : List (Nat × Nat × Int) → List (Nat × Nat × Int)
+  | a :: b :: rest => if a.2.2 == b.2.2 then joinWindows ((a.1, b.2.1, a.2.2) :: rest) else a :: joinWindows (b :: rest)
+  | l => l
+termination_by l => l.length
+
+def pileupBg (I : List Iv) : List (Nat × Nat × Int) :=
+  let n := I.length
+  let tagged := (I.map (·.1) ++ I.map (·.2)).zipIdx
+  let sorted := isort (fun a b => natLe a.1 b.1) tagged
+  let cum := cumsum 0 (sorted.map (fun a => if a.2 ≥ n then (-1 : Int) else 1))
+  joinWindows (windows ((sorted.map (·.1)).zip cum))
+
+/-! ### `bedgraph.value_hist`: bases per value (`np.bincount(value, weights = stop - start)`) -/
+
+def valueHist (bg : List (Nat × Nat × Nat)) : List Nat :=
+  match (bg.map (·.2.2)).max? with
+  | none => []
+  | some m => (List.range (m + 1)).map (fun v => ((bg.filter (fun r => r.2.2 == v)).map (fun r => r.2.1 - r.1)).sum)
+
+/-! ### `Geometry.sort`: by position on the concatenated genome (`sort_by('start')` on global coordinates) -/
+
+def lexCS2 (a b : Rec) : Bool := decide (a.1 < b.1) || (a.1 == b.1 && decide (a.2.1 ≤ b.2.1))
+
+def geoSort (xs : List Rec) : List Rec := isort lexCS2 xs
+
+end C08
